@@ -1,10 +1,12 @@
 """Per-property texts for MANIFEST.json (kept apart from the executable registry)."""
 
-HOOK_COMMITS = []
+HOOK_COMMITS = ["5ed767e"]
 
 ENGINES = [
-    {"name": "vq-sim", "path": "harness/vq-sim", "serves_properties": ["C01", "C02", "C03", "C08", "C09", "C11", "C12"],
+    {"name": "vq-sim", "path": "harness/vq-sim", "serves_properties": ["C01", "C02", "C03", "C06", "C08", "C09", "C11", "C12"],
      "kind_free_text": "deterministic end-to-end simulation of real s2n-quic endpoints (bach executor, virtual clock) with five taps (network, cleartext TX/RX interceptor, event subscriber, congestion-controller proxy, application) feeding online property monitors"},
+    {"name": "vq-c16", "path": "harness/vq-c16", "serves_properties": ["C16"],
+     "kind_free_text": "component monitor: real buffer/set structures of s2n-quic-core against executable reference models after every operation; native, exhaustive short sequences, and under Miri"},
     {"name": "vq-wire", "path": "harness/vq-wire", "serves_properties": ["C05", "C08", "C14"],
      "kind_free_text": "independent RFC 9000 reference parser used as the other side of layout oracles and as the frame decoder of the taps"},
 ]
@@ -26,6 +28,10 @@ META = {
             "technique": "runtime monitoring: online limit oracle over cleartext TX/RX taps",
             "text": "Every STREAM and RESET_STREAM frame an endpoint encodes is checked against the largest stream, connection and stream-count limits its RX tap has shown it so far (transport parameters + MAX_* frames), in seeded executions biased to tiny/odd limits; hundreds of thousands of frames land exactly on a limit per run.",
             "note": _SIM_NOTE},
+    "C06": {"engine": "vq-sim", "design_ref": "DESIGN.md section 4, C06",
+            "technique": "runtime monitoring: adversarial network tap (forger/replayer) + authentication oracle joining the RX tap of one endpoint with the TX tap of its peer",
+            "text": "Hundreds of thousands of forged, garbled, spliced and replayed datagrams are injected into established connections; every packet an endpoint authenticates must be byte-identical in cleartext to what its peer sent under that packet number and be processed at most once; ACK ranges and ECN counts must stay within the authenticated set; application bytes are checked by the C01 oracle in the same runs; with genuine traffic untouched nothing may fail.",
+            "note": _SIM_NOTE},
     "C08": {"engine": "vq-sim", "design_ref": "DESIGN.md section 4, C08",
             "technique": "runtime monitoring: ACK-soundness / promptness / packet-number oracles over TX, RX, event and network taps",
             "text": "ACK ranges are checked against the set of packet numbers the RX tap fired for, packet numbers for strict increase, every truncated packet number for RFC A.3 expansion from the largest acknowledged value, genuine intact datagrams for never failing decryption, and acknowledgement latency against max_ack_delay with cause attribution (the pacer-held ACK is a recorded known finding).",
@@ -38,6 +44,10 @@ META = {
             "technique": "runtime monitoring: byte-accounting oracle on the network tap (it is the network) + raw-socket probes",
             "text": "Per client address the tap counts bytes delivered to and emitted by the server until the server authenticates a Handshake packet (or a Retry token returns) and checks the 3x rule at the start of every server datagram; replies to 2000+ datagrams that belong to no connection are checked for size (stateless reset strictly smaller, observed margin 1 byte), kind (VN only for >= 1200 bytes, never to VN) and count; every client Initial datagram is checked for 1200-byte padding. Handshake drop positions are enumerated.",
             "note": _SIM_NOTE},
+    "C16": {"engine": "vq-c16", "design_ref": "DESIGN.md section 4, C16",
+            "technique": "runtime monitoring: reference-model comparison after every operation (random + exhaustive short sequences), plus the same workload under the Miri interpreter",
+            "text": "The real reassembler, interval set, ACK ranges, packet-number map and sliding window are driven with boundary-biased random operation sequences and with every sequence of depth 3/4 over a slot-edge alphabet, and compared with independent byte-map / BTreeSet / BTreeMap models after each operation; Miri interprets a reduced workload so that uninitialised reads, invalid retags and out-of-bounds accesses in the unsafe slot code abort the run.",
+            "note": "Trusted base: the harness' models (src/reasm.rs, sets.rs, pn.rs of vq-c16) and Miri. The slot size cannot be scaled down from outside the crate; partial-failure readers and conflicting bytes for one offset are not exercised."},
     "C12": {"engine": "vq-sim", "design_ref": "DESIGN.md section 4, C12",
             "technique": "runtime monitoring: per-stream self-consistency oracle over the cleartext TX tap + network tap for close behaviour",
             "text": "Per endpoint and stream, every STREAM frame's bytes are compared with what the application wrote at that offset (so retransmissions equal first transmissions), final sizes are tracked for change/overrun, frames after RESET_STREAM and after CONNECTION_CLOSE are flagged, close-datagram copies are counted against incoming datagrams, stream ids from open() must increase.",
